@@ -86,9 +86,17 @@
 //     asserted): the statement is about the exported
 //     span, and a library that altered the caller's memory is caught through
 //     the sibling / the second call whenever that matters for an exported span.
-//     Link.Attributes slices are excluded
-//     from lending, scribbling and sharing: AddLink keeps the caller's slice
-//     on the pinned tree and the statement does not cover that.
+//     Link.Attributes slices are never WRITTEN to by the caller (AddLink keeps
+//     the caller's slice on the pinned tree and the statement does not cover
+//     that), but the caller does use a Link value again: the same Link (same
+//     Attributes slice object) is added to the sibling span before / after the
+//     primary call or to the primary span twice, its Attributes slice is passed
+//     to SetAttributes / AddEvent afterwards, and the Link values given to
+//     WithLinks are added to the sibling span with AddLink. Each of these calls
+//     is modelled with the key-values the caller built.
+//   - The statement is not restricted to a process in which one span is worked
+//     on at a time: concurrent_test.go runs the same sequential model check in
+//     several goroutines, each on its own provider, span and program.
 package c04
 
 import (
@@ -255,9 +263,22 @@ func (l LinkD) link() trace.Link {
 type loan struct {
 	buf  []attribute.KeyValue
 	orig []attribute.KeyValue // what the caller built (never handed out)
+	// readOnly: the caller does not scribble over this one
+	readOnly bool
 }
 
 type lender struct{ loans []loan }
+
+// keep builds a caller-owned slice that the caller re-uses but never writes to
+// (Link.Attributes): tracked for the caller_slice_modified observation only.
+func (l *lender) keep(kvs []vk.KV) []attribute.KeyValue {
+	if len(kvs) == 0 {
+		return nil
+	}
+	buf := vk.ToAttrs(kvs)
+	l.loans = append(l.loans, loan{buf: buf, orig: vk.ToAttrs(kvs), readOnly: true})
+	return buf
+}
 
 func (l *lender) lend(kvs []vk.KV) []attribute.KeyValue {
 	a := vk.ToAttrs(kvs)
@@ -286,6 +307,9 @@ func (l *lender) altered() string {
 
 func (l *lender) scribble() {
 	for _, ln := range l.loans {
+		if ln.readOnly {
+			continue
+		}
 		b := ln.buf[:cap(ln.buf)]
 		for i := range b {
 			b[i] = attribute.String("scribbled.by.caller", "after the call returned")
@@ -323,12 +347,11 @@ func callOp(span trace.Span, op Op, s, s2 []attribute.KeyValue) {
 		}
 		span.AddEvent(string(op.Text), opts...)
 	case "link":
-		// Link attributes are NOT lent: AddLink keeps the caller's
-		// Link.Attributes slice (observed on the pinned tree; the API does not
-		// promise a copy and the statement does not quantify over the caller
-		// re-using its memory), so scribbling over it would raise an alarm the
-		// property does not justify.
-		span.AddLink(op.Link.link())
+		// s is the Attributes slice of the caller's Link value (nil when the
+		// link carries no attributes). The caller never writes to it (AddLink
+		// keeps the caller's slice on the pinned tree; whether it may is not
+		// part of the statement) but it does USE the Link value again.
+		span.AddLink(trace.Link{SpanContext: op.Link.spanContext(), Attributes: s})
 	case "error":
 		var opts []trace.EventOption
 		if len(s) > 0 {
@@ -407,8 +430,11 @@ func (p *prog) applyOp(idx int, op Op) {
 			p.callerSliceModified = true
 		}
 	}
+	if op.Op == "link" {
+		s = l.keep(op.Link.Attrs)
+	}
 	share := 0
-	if p.sib != nil && lentOp(op) {
+	if p.sib != nil && sharedOp(op) {
 		share = op.Share
 	}
 	if share == 2 {
@@ -757,7 +783,11 @@ func compare(prefix string, c Case, m *model, ro sdktrace.ReadOnlySpan) []vk.Vio
 
 // ---------------------------------------------------------------------
 
-func run(gc Case) ([]vk.Violation, vk.Info) {
+func run(gc Case) ([]vk.Violation, vk.Info) { return runCase(gc, true) }
+
+// runCase: env = false leaves the process environment alone (cases that run
+// in several goroutines at once; they configure their limits with an option).
+func runCase(gc Case, env bool) ([]vk.Violation, vk.Info) {
 	var info vk.Info
 
 	// gc is the case as generated (the numbers and the way they are
@@ -765,8 +795,12 @@ func run(gc Case) ([]vk.Violation, vk.Info) {
 	// the limits the documentation of that way predicts: everything the model
 	// and the comparison do uses c.
 	c := eff(gc)
-	restoreEnv := applyEnv(gc.Cfg.Env)
-	defer restoreEnv()
+	if env {
+		restoreEnv := applyEnv(gc.Cfg.Env)
+		defer restoreEnv()
+	} else if len(gc.Cfg.Env) > 0 || gc.Cfg.Via == "none" || gc.Cfg.FromNew {
+		panic("harness bug: a case that depends on the environment run without it")
+	}
 
 	rec := &recorder{}
 	var sampler sdktrace.Sampler = sdktrace.AlwaysSample()
@@ -787,12 +821,15 @@ func run(gc Case) ([]vk.Violation, vk.Info) {
 	if len(c.StartAttrs) > 0 {
 		opts = append(opts, trace.WithAttributes(vk.ToAttrs(c.StartAttrs)...))
 	}
+	var startLinks []trace.Link
 	if len(c.StartLinks) > 0 {
-		links := make([]trace.Link, len(c.StartLinks))
+		startLinks = make([]trace.Link, len(c.StartLinks))
 		for i, l := range c.StartLinks {
-			links[i] = l.link()
+			startLinks[i] = l.link()
 		}
-		opts = append(opts, trace.WithLinks(links...))
+		// (WithLinks gets its own slice of Link values; the Attributes slices
+		// inside are the caller's)
+		opts = append(opts, trace.WithLinks(append([]trace.Link{}, startLinks...)...))
 	}
 	if c.Parent == 4 {
 		opts = append(opts, trace.WithNewRoot())
@@ -821,6 +858,12 @@ func run(gc Case) ([]vk.Violation, vk.Info) {
 		)
 		defer func() { _ = stp.Shutdown(context.Background()) }()
 		_, p.sib = stp.Tracer("c04.sibling").Start(context.Background(), string(sc.Name), trace.WithSpanKind(trace.SpanKind(sc.Kind)))
+		if c.StartLinksShared {
+			// the Link values the primary span was started with, used again
+			for _, l := range startLinks {
+				p.sib.AddLink(l)
+			}
+		}
 	}
 
 	ended := false
@@ -909,9 +952,31 @@ func classifySharing(info *vk.Info, c Case) {
 	info.ClassIf(c.HasSib, "sibling_span")
 	var after, before, againAttrs, againEvent, sensitive, sibLooser, afterEnd int
 	ended := false
+	linkAgain := map[string]int{}
+	var linkShared, linkCapReuse int
+	defer func() {
+		info.ClassIf(linkShared > 0, "link_value_shared_with_sibling")
+		info.ClassIf(linkAgain["attrs"] > 0, "link_attrs_reused_setattributes_same_span")
+		info.ClassIf(linkAgain["event"] > 0, "link_attrs_reused_addevent_same_span")
+		info.ClassIf(linkAgain["link"] > 0, "link_value_added_twice_same_span")
+		info.ClassIf(linkCapReuse > 0, "reused_link_holds_more_attrs_than_per_link_cap")
+		info.ClassIf(c.HasSib && c.StartLinksShared && len(c.StartLinks) > 0, "start_links_added_to_sibling")
+	}()
 	for _, op := range c.Ops {
 		if op.Op == "end" {
 			ended = true
+		}
+		if op.Op == "link" {
+			_, again := againOp(op)
+			shared := c.HasSib && op.Share != 0
+			linkShared += b2i(shared)
+			if again {
+				linkAgain[op.Again]++
+			}
+			if (again || shared) && c.Limits.PerLink > 0 && len(op.Link.Attrs) > c.Limits.PerLink {
+				linkCapReuse++
+			}
+			continue
 		}
 		if !lentOp(op) {
 			continue
@@ -972,6 +1037,13 @@ func classifySharing(info *vk.Info, c Case) {
 	info.ClassIf(againEvent > 0, "slice_reused_addevent_same_span")
 	info.ClassIf(sensitive > 0, "reused_slice_holds_string_over_a_limit")
 	info.ClassIf(sibLooser > 0, "shared_string_cut_differently_by_the_two_limits")
+}
+
+func b2i(b bool) int {
+	if b {
+		return 1
+	}
+	return 0
 }
 
 func classify(info *vk.Info, c Case, m *model, nvariants int) {
